@@ -47,8 +47,9 @@ def ncases(tier):
 def gen(rng, idx, tier, seed):
     fmt = refcamx.FORMATS[idx % len(refcamx.FORMATS)]
     spec = refcamx.gen_spec(rng, fmt)
-    spec['src'] = 'direct' if (idx // len(refcamx.FORMATS)) % 3 == 2 and \
-        fmt in ('uamiv', 'lateral_boundary') else 'image'
+    spec['dhour'] = 1       # C08 is quantified over hourly steps
+    spec['src'] = 'direct' if (idx // len(refcamx.FORMATS)) % 3 == 2 \
+        else 'image'
     if rng.random() < 0.3:
         # names that are prefixes of one another
         spec['names'] = ['NO', 'NO2', 'NO2X', 'N'][:max(2, len(
@@ -58,49 +59,77 @@ def gen(rng, idx, tier, seed):
 
 def build_direct(spec):
     """CAMx-convention file built with the public API, without going through
-    the library's reader (no ETFLAG, no _boundary_def)"""
+    the library's reader (no ETFLAG, no _boundary_def); variables are created
+    in a shuffled order, as a hand-built or merged file may have them"""
     import PseudoNetCDF as pnc
+    fmt = spec['fmt']
     c = refcamx.content(spec)
-    h = c['header']
     st = refcamx.step_times(spec)
+    rng = np.random.default_rng([spec['seed'], 61])
     f = pnc.PseudoNetCDFFile()
     nv = len(c['vars'])
-    f.createDimension('TSTEP', spec['nt']).setunlimited(True)
-    f.createDimension('LAY', spec['nz'])
+    if fmt == 'landuse':
+        f.createDimension('LANDUSE', c['dims']['LANDUSE'])
+    else:
+        f.createDimension('TSTEP', spec['nt']).setunlimited(True)
+        f.createDimension('LAY', spec['nz'])
     f.createDimension('ROW', spec['ny'])
     f.createDimension('COL', spec['nx'])
     f.createDimension('VAR', nv)
     f.createDimension('DATE-TIME', 2)
-    tf = f.createVariable('TFLAG', 'i', ('TSTEP', 'VAR', 'DATE-TIME'))
-    tf.units = '<YYYYDDD,HHMMSS>'
-    for t in range(spec['nt']):
-        tf[t, :, 0] = st[t][0]
-        tf[t, :, 1] = st[t][1] * 10000
-    for k, a in c['vars'].items():
-        if spec['fmt'] == 'uamiv':
-            d = ('TSTEP', 'LAY', 'ROW', 'COL')
-        elif k.split('_')[0] in ('WEST', 'EAST'):
-            d = ('TSTEP', 'ROW', 'LAY')
+    order = list(c['vars'])
+    if fmt not in ('uamiv', 'lateral_boundary'):
+        order = [order[i] for i in rng.permutation(len(order))]
+    todo = order + ([] if fmt == 'landuse' else ['TFLAG'])
+    if rng.random() < 0.5 and fmt != 'landuse':
+        todo = ['TFLAG'] + order
+    for k in todo:
+        if k == 'TFLAG':
+            tf = f.createVariable('TFLAG', 'i', ('TSTEP', 'VAR', 'DATE-TIME'))
+            tf.units = '<YYYYDDD,HHMMSS>'
+            for t in range(spec['nt']):
+                tf[t, :, 0] = st[t][0]
+                tf[t, :, 1] = st[t][1] * 10000
+            continue
+        a = c['vars'][k]
+        if fmt == 'lateral_boundary':
+            d = ('TSTEP', 'ROW', 'LAY') if k.split('_')[0] in (
+                'WEST', 'EAST') else ('TSTEP', 'COL', 'LAY')
+        elif fmt == 'landuse':
+            d = ('LANDUSE', 'ROW', 'COL') if a.ndim == 3 else ('ROW', 'COL')
+        elif a.ndim == 3:
+            d = ('TSTEP', 'ROW', 'COL')
         else:
-            d = ('TSTEP', 'COL', 'LAY')
+            d = ('TSTEP', 'LAY', 'ROW', 'COL')
         v = f.createVariable(k, 'f', d)
         v.units = 'ppm'
         v[...] = a
     setattr(f, 'VAR-LIST', ''.join(k.ljust(16) for k in c['vars']))
     f.NVARS = nv
     f.NLAYS, f.NROWS, f.NCOLS = spec['nz'], spec['ny'], spec['nx']
-    f.SDATE = st[0][0]
-    f.STIME = st[0][1] * 10000
-    f.TSTEP = 10000
-    f.NAME = h['name'].ljust(10)
-    f.NOTE = h['note'].ljust(60)
-    f.ITZON = h['itzon']
-    for att, key in (('XORIG', 'xorg'), ('YORIG', 'yorg'), ('XCELL', 'delx'),
-                     ('YCELL', 'dely'), ('PLON', 'plon'), ('PLAT', 'plat'),
-                     ('TLAT1', 'tlat1'), ('TLAT2', 'tlat2'),
-                     ('CPROJ', 'iproj'), ('ISTAG', 'istag'),
-                     ('IUTM', 'iutm')):
-        setattr(f, att, h[key])
+    if fmt != 'landuse':
+        f.SDATE = st[0][0]
+        f.STIME = st[0][1] * 10000
+        f.TSTEP = int(spec.get('dhour', 1)) * 10000
+    if fmt in ('uamiv', 'lateral_boundary'):
+        h = c['header']
+        f.NAME = h['name'].ljust(10)
+        f.NOTE = h['note'].ljust(60)
+        f.ITZON = h['itzon']
+        for att, key in (('XORIG', 'xorg'), ('YORIG', 'yorg'),
+                         ('XCELL', 'delx'), ('YCELL', 'dely'),
+                         ('PLON', 'plon'), ('PLAT', 'plat'),
+                         ('TLAT1', 'tlat1'), ('TLAT2', 'tlat2'),
+                         ('CPROJ', 'iproj'), ('ISTAG', 'istag'),
+                         ('IUTM', 'iutm')):
+            setattr(f, att, h[key])
+    elif fmt == 'wind':
+        ls = spec.get('lstagger')
+        f.LSTAGGER = np.float32('nan') if ls is None else np.int32(ls)
+    elif fmt == 'cloud_rain':
+        f.FILEDESC = refcamx.cloud_hdr(spec)
+    elif fmt == 'landuse':
+        f._newstyle = bool(spec.get('newstyle'))
     return f, c
 
 
@@ -219,14 +248,22 @@ def run(spec, res):
             # the independent decoder must also recover what was handed in
             try:
                 dec = refcamx.decode(fmt, open(p1, 'rb').read(), spec['ny'],
-                                     spec['nx'])
+                                     spec['nx'], nvars=spec.get('nvars'),
+                                     newstyle=spec.get('newstyle'))
                 if dec['tflag'] != c['tflag']:
                     problems.append('decoded begin times %s, handed in %s'
                                     % (dec['tflag'][:4], c['tflag'][:4]))
-                if dec['etflag'] != c['etflag']:
-                    problems.append('decoded end times %s, begin times + 1 '
-                                    'h are %s' % (dec['etflag'][:4],
-                                                  c['etflag'][:4]))
+                if c['etflag'] and dec['etflag'] != c['etflag']:
+                    problems.append('decoded end times %s, begin times + '
+                                    'step are %s' % (dec['etflag'][:4],
+                                                     c['etflag'][:4]))
+                for k, a in c['vars'].items():
+                    if k not in dec['vars'] or dec['vars'][k].shape != \
+                            a.shape or dec['vars'][k].tobytes() != \
+                            a.tobytes():
+                        problems.append('independent decoder: variable %s '
+                                        'of the written file is not what '
+                                        'was handed in' % k)
             except Exception as e:
                 problems.append('written bytes do not follow the layout: %s'
                                 % (e,))
